@@ -280,6 +280,7 @@ func cmdRecord(args []string) {
 		fmt.Fprintln(os.Stderr, "world:", err)
 		os.Exit(2)
 	}
+	installTxChecker(w)
 	f, _ := os.Create(*outTrace)
 	defer f.Close()
 	enc := json.NewEncoder(f)
